@@ -368,7 +368,8 @@ Definition cfg_error_loc (e : cfgerr) : loc :=
   match e with
   | CLabelsNotDefined (x :: l) => loc_of_tok (wt (min_name l x))
   | CLabelsNotDefined [] => mkloc range0 None
-  | CDuplicateLabel l => loc_of_tok (wt l)
+  | CDuplicateLabel l | CLabelWithoutInstruction l => loc_of_tok (wt l)
+  | CFunctionWithoutReturn n _ => loc_of_node n
   | CUnexpectedError => mkloc range0 None
   end.
 
@@ -465,5 +466,7 @@ Definition cfg_error_title (e : cfgerr) : str :=
   match e with
   | CLabelsNotDefined ls => «"Labels not defined: "» ++ join «", "» (sort_names (map wv ls))
   | CDuplicateLabel l => «"Duplicate label: "» ++ wv l
+  | CLabelWithoutInstruction l => «"No instruction after label: "» ++ wv l
+  | CFunctionWithoutReturn _ ls => «"Function never returns: "» ++ join «", "» (sort_names (map wv ls))
   | CUnexpectedError => «"Unexpected error"»
   end.
